@@ -92,12 +92,20 @@ def extract(region, unit_cfg):
         if region.kind == "type":
             text2, n = strip_attrs(text)
             f = rules_mod.Frag(text2, "%s:%d" % (region.file, l0))
+            # R9: a restricted visibility on an extracted enum becomes `pub` (Verus generates open accessors for
+            # payload variants; visibility has no meaning inside the single-file unit)
+            c = f.code
+            if len(c) > 4 and c[0].text == "pub" and c[1].text == "(" and c[4].text == "enum":
+                f.apply([(c[0].pos, c[3].end, "pub")], "R9")
             if n:
                 f.log.append({"rule": "R9", "at": f.origin, "before": "%d attribute(s)" % n, "after": ""})
             if substs:
                 rules_mod.subst(f, substs, "R12")
         else:
-            f = rules_mod.rewrite(text, "%s:%d" % (region.file, l0), region.rules, substs)
+            wc = None
+            if "R10" in region.rules:
+                wc = set(unit_cfg.get("world_calls", []))
+            f = rules_mod.rewrite(text, "%s:%d" % (region.file, l0), region.rules, substs, wc)
     except (rules_mod.RuleError, rscan.ScanError) as ex:
         raise UnitError("rewrite %s: %s" % (region.label, ex))
     return f.text, f.log, info
